@@ -406,7 +406,7 @@ pub fn structural_mutation(t: &mut Tape, e: &Encoded) -> (Vec<u8>, &'static str)
     let mut p = to_pieces(e);
     let fixup = t.chance(1, 2);
     let nf = p.frames.len();
-    let what = match t.below(8) {
+    let what = match t.below(10) {
         0 => {
             let f = t.below(nf as u32) as usize;
             if !p.frames[f].1.is_empty() {
@@ -468,6 +468,24 @@ pub fn structural_mutation(t: &mut Tape, e: &Encoded) -> (Vec<u8>, &'static str)
                 p.frames[g].1.push(c);
             }
             "chunk-move"
+        }
+        8 | 9 => {
+            // a Tags chunk (M tags) followed by K user-data records, injected into any frame: exercises
+            // tag bookkeeping when tags chunks repeat or appear outside the first frame
+            let f = t.below(nf as u32) as usize;
+            let m = t.below(7) as usize;
+            let k = t.below(9) as usize;
+            let tags: Vec<Tag> = (0..m).map(|i| Tag { from: 0, to: 0, dir: 0, repeat: 0, name: format!("j{}", i) }).collect();
+            let mut at = t.below(p.frames[f].1.len() as u32 + 1) as usize;
+            p.frames[f].1.insert(at, finish_chunk(tags_chunk(&tags, &mut None), 0, &mut Rng(2)).bytes);
+            for i in 0..k {
+                at += 1;
+                let mut w = W::new(0x2020);
+                w.u32(Kind::Flags, "ud_flags", 1);
+                w.string("ud_text", &format!("tj{}", i));
+                p.frames[f].1.insert(at, finish_chunk(w, 0, &mut Rng(3)).bytes);
+            }
+            "tags-inject"
         }
         _ => {
             // user data chunk injected at a random position (dangling / re-attaching)
